@@ -195,6 +195,29 @@ def commentOfB (cur : Option Str) : List Str → Option Str
       | some body => commentOfB (some body) ls
       | none => commentOfB cur ls
 
+/-- first line of a multi-line `"""` comment (as `raw_line.strip()`): the text after the marker -/
+def openLine (s : Str) : Option Str :=
+  let p := firstPart s
+  if !s.isEmpty && !isOpener s && !startsWith s ['#'] && startsWith p q3 && (p == q3 || !endsWith p q3) then some (p.drop 3) else none
+
+/-- a line inside a multi-line `"""` comment that does not close it -/
+def midLine (s : Str) : Option Str :=
+  let p := firstPart s
+  if !s.isEmpty && !isOpener s && !startsWith s ['#'] && !endsWith p q3 then some p else none
+
+/-- the closing line of a multi-line `"""` comment: the text before the marker -/
+def closeLine (s : Str) : Option Str :=
+  let p := firstPart s
+  if !s.isEmpty && !isOpener s && !startsWith s ['#'] && endsWith p q3 then some (p.dropLast.dropLast.dropLast) else none
+
+/-- the comment text gathered inside a multi-line block: every non-blank middle line on a line of its own; blank lines are dropped -/
+def blockBody (c : Str) : List Str → Str
+  | [] => c
+  | l :: ls =>
+    match midLine (strip l) with
+    | some p => blockBody (c ++ '\n' :: p) ls
+    | none => blockBody c ls
+
 /-! ### from the file content -/
 
 /-- `content.split("\n")` -/
